@@ -216,8 +216,15 @@ def o_history(ops):
         m2 = model.clone()
         expect_raise = False
         known_f12 = False
-        if name == "add":
-            _, refs, fail_flag, as_list = op
+        if name in ("add", "init"):
+            if name == "init":
+                # the other public way to fill a library: Library(blocks) - only as the first step
+                if step != 0:
+                    raise harness.HarnessError("init is the first op")
+                refs, fail_flag, as_list = op[1], False, True
+                cls.add("constructed-with-blocks")
+            else:
+                _, refs, fail_flag, as_list = op
             objs = [deref(r, lib) for r in refs]
             wrapped_any = False
             new_slots = []
@@ -234,6 +241,12 @@ def o_history(ops):
             arg = objs if (as_list or len(objs) != 1) else objs[0]
             call = lambda: lib.add(arg, fail_on_duplicate_key=fail_flag)  # noqa: E731
             where = "add" + ("(fail_on_duplicate_key)" if fail_flag else "")
+            if name == "init":
+                where = "Library(blocks)"
+
+                def call():
+                    nonlocal lib
+                    lib = Library(list(objs))
         elif name == "remove":
             _, refs, as_list = op
             objs = [deref(r, lib) for r in refs]
@@ -390,6 +403,22 @@ def w_random(acc, n, seed, max_len):
     from hypothesis import strategies as st
 
     harness.run_hyp(acc, "history", o_history, st.lists(op_strategy(), min_size=1, max_size=max_len), n, seed)
+    uref = st.tuples(st.sampled_from(["u", "u", "c"]), st.integers(0, U_SIZE - 1)).map(list)
+    init = st.lists(uref, max_size=6).map(lambda refs: ["init", refs])
+    harness.run_hyp(acc, "history", o_history, st.tuples(init, st.lists(op_strategy(), max_size=max_len)).map(lambda t: [t[0]] + t[1]), max(100, n // 3), seed + 7)
+
+
+def w_init(acc):
+    """Library(blocks) as the start of a history: same bookkeeping as add(list)."""
+    ops = small_ops()
+    inits = [[], [["u", 0]], [["u", 0], ["u", 1]], [["u", 0], ["u", 0]], [["u", 0], ["c", 0]], [["u", i] for i in U_SMALL], [["u", i] for i in range(U_SIZE)],
+             [["u", i] for i in reversed(range(U_SIZE))], [["c", 0], ["u", 0], ["c", 8], ["u", 8]]]
+    for refs in inits:
+        acc.run("history", o_history, [["init", refs]], True)
+        for a in ops:
+            acc.run("history", o_history, [["init", refs], a], True)
+            for b in ops:
+                acc.run("history", o_history, [["init", refs], a, b], True)
 
 
 def w_machine(acc, n, seed):
@@ -483,6 +512,7 @@ def run(chk):
         for first in range(n_ops):
             tasks.append(("w_enum", (d, first)))
     tasks.append(("w_enum_fail_flag", (3,)))
+    tasks.append(("w_init", ()))
     tasks += [("w_large", (n,)) for n in (130, 300, 1100)]
     n_rand = 24000 if quick else 300000
     shards = 8 if quick else 32
@@ -500,7 +530,7 @@ def run(chk):
         "compared with every view after every call; raising calls must leave blocks (identity sequence) and both dicts "
         "unchanged. Non-trivial: the history produced >= 1 duplicate wrapper and executed >= 1 remove/replace; distinct by history."
     )
-    chk.required_classes = ["raising-call", "replace-string-by-entry", "failing-replace-while-duplicates-held", "remove-live-then-add-same-key"]
+    chk.required_classes = ["raising-call", "replace-string-by-entry", "failing-replace-while-duplicates-held", "remove-live-then-add-same-key", "constructed-with-blocks"]
     chk.assumptions = [
         "the order of Library.strings is not asserted (the statement fixes order for blocks and entries only)",
         "an object added twice is held twice (two positions); 'exactly once' is read per add call",
